@@ -115,6 +115,9 @@ def run_kets(ctx, case):
         r = ref.rng(case['prng'])
         n = case['n']
         c = ref.rand_complex(r, n) if case['prng'] % 2 else r.normal(size=n)
+        if case['prng'] % 3 == 2:
+            c = r.integers(1, 5, size=n) * r.choice([-1, 1], size=n)  # integer coefficients, e.g. Wtype([1, 2, 2])
+            ctx.label('integer coefficients')
         v = S.Wtype(c.copy())
         want = np.zeros(2 ** n, dtype=np.complex128)
         for q in range(n):
